@@ -49,7 +49,7 @@ OrderOK(chunks, seq) ==
    /\ chunks[1].tfdtOff = 0
    /\ \A j \in 1..(Len(chunks) - 1) : chunks[j + 1].tfdtOff = chunks[j].tfdtOff + chunks[j].dur
    /\ \A j \in 1..Len(chunks) : chunks[j].seq = seq /\ chunks[j].ns > 0
-\* the byte ranges of the chunks tile the body (nothing but styp/moof/mdat in it)
+\* the byte ranges of the chunks tile the body (a box that is not styp/moof/mdat counts to the chunk that follows it)
 RECURSIVE SumNs(_, _)
 SumNs(chunks, n) == IF n = 0 THEN 0 ELSE SumNs(chunks, n - 1) + chunks[n].ns
 TilesOK(chunks, blen, nsamples) ==
